@@ -79,6 +79,9 @@ pub fn config(a: &Args) -> Config {
         max_viol_sigs: a.num("max-viol-sigs", 64) as usize,
         grace_secs: a.num("grace-secs", 3),
         audit: a.num("audit", 0) > 0,
+        deep: a.num("deep", 0) as u32,
+        quq: a.num("quq", 0) as u32,
+        quq_tail: a.num("quq-tail", 1) as u32,
     }
 }
 
